@@ -64,6 +64,28 @@ func oracleAtomic(lab *txnLab, before map[string]map[string]map[string]val.Val, 
 	if firstErr >= 0 && stateKey(before, beforeRefs) != stateKey(ob.State, ob.Refs) {
 		return fmt.Sprintf("the transaction failed (result %d: %s) but the database or its reference index changed", firstErr, ob.Results[firstErr].Msg)
 	}
+	// all: a committed transaction applied every operation - an insert into a root table that reported success
+	// and is not deleted again later in the transaction is stored
+	if firstErr < 0 && ob.Committed {
+		for i, op := range ops {
+			if op.Kind != "insert" || op.UUID == "" || i >= len(ob.Results) || ob.Results[i].Kind != "uuid" {
+				continue
+			}
+			t := lab.db.Spec.Table(op.Table)
+			if t == nil || !t.IsRoot {
+				continue
+			}
+			deletedLater := false
+			for _, op2 := range ops[i+1:] {
+				if op2.Kind == "delete" && op2.Table == op.Table {
+					deletedLater = true
+				}
+			}
+			if _, ok := ob.State[op.Table][op.UUID]; !ok && !deletedLater {
+				return fmt.Sprintf("the transaction committed and operation %d reported the insert of row %s into %s, but the row is not stored (only part of the transaction was applied)", i, op.UUID, op.Table)
+			}
+		}
+	}
 	return ""
 }
 
@@ -208,7 +230,8 @@ func c02Schema() dyn.Schema {
 			{Name: "kids", K: 's', KT: 'u', Max: -1, RefTable: "C", RefType: "strong"},
 			{Name: "w1", K: 's', KT: 'u', Min: 1, Max: -1, RefTable: "Q", RefType: "weak"},
 			{Name: "ss", K: 's', KT: 's', Max: -1}, {Name: "m", K: 'm', KT: 's', VT: 's', Max: -1},
-			{Name: "bs", K: 's', KT: 's', Max: 3}, {Name: "bi", K: 's', KT: 'i', Min: 0, Max: 2}}},
+			{Name: "bs", K: 's', KT: 's', Max: 3}, {Name: "bi", K: 's', KT: 'i', Min: 0, Max: 2},
+			{Name: "m1", K: 'm', KT: 's', VT: 's', Max: 1}}},
 		{Name: "C", Indexes: [][]string{{"k"}}, Cols: []val.Col{
 			{Name: "k", K: 'a', KT: 's'}, {Name: "v", K: 'a', KT: 'i'},
 			{Name: "friend", K: 'o', KT: 'u', RefTable: "Q", RefType: "weak"}}},
